@@ -150,6 +150,11 @@ class Signal:
             desc=self.desc,
             src=self.src,
             dest=self.dest,
+            usage=self.usage,
+            props=copy(self.props),
+            related_clk=self.related_clk,
+            related_pwr=self.related_pwr,
+            related_gnd=self.related_gnd,
         )
 
     def __deepcopy__(self, _memo) -> "Signal":
